@@ -48,3 +48,44 @@ func factsWal() {
 		unrec("wal_key_layout", "bool", "key layout changed")
 	}
 }
+
+// C03: every durable change of the log store is one write batch - Save and CreateSnapshot each open one batch, put all
+// their writes and deletions into it (CreateSnapshot: the snapshot record before the deletion of the compacted entries)
+// and flush it once, so a crash leaves either the state before the call or the state after it.
+func init() { extraExtractors = append(extraExtractors, factsWalAtomic) }
+
+func factsWalAtomic() {
+	const name, typ = "wal_calls_one_batch", "bool"
+	why := ""
+	for _, fn := range []string{"Save", "CreateSnapshot"} {
+		txt, fd := bodyText("storage/wal/badger.go", "badgerWAL", fn)
+		if fd == nil {
+			unrec(name, typ, fn+" not found")
+			return
+		}
+		if strings.Count(txt, "this.db.NewWriteBatch()") != 1 || strings.Count(txt, ".Flush()") != 1 || !strings.HasSuffix(txt, "batch.Flush() }") {
+			why = fn + " does not consist of one write batch flushed at its end"
+		}
+		// no helper that could open a batch of its own: every call on the receiver takes the batch (or only reads)
+		for _, c := range calls(fd.Body) {
+			cn := callName(c)
+			if !strings.HasPrefix(cn, "this.") || strings.HasPrefix(cn, "this.db.") || strings.HasPrefix(cn, "this.cache.") {
+				continue
+			}
+			takesBatch := len(c.Args) > 0 && norm(src(c.Args[0])) == "batch"
+			reads := cn == "this.FirstIndex" || cn == "this.LastIndex" || cn == "this.seekEntry" || cn == "this.Snapshot" || cn == "this.firstIndex" || cn == "this.lastIndex"
+			if !takesBatch && !reads {
+				why = fn + " calls " + cn + " outside its batch"
+			}
+		}
+	}
+	cs, _ := bodyText("storage/wal/badger.go", "badgerWAL", "CreateSnapshot")
+	if is, id := strings.Index(cs, "this.writeSnapshot(batch, snapshot)"), strings.Index(cs, "this.deleteEntriesUntilIndex(batch, snapshot.Metadata.Index)"); is < 0 || id < 0 || id < is {
+		why = "CreateSnapshot: snapshot record and compaction are not one batch in that order"
+	}
+	if why != "" {
+		known(name, typ, "false", why)
+		return
+	}
+	known(name, typ, "true", "Save and CreateSnapshot: one write batch each, flushed once at the end")
+}
